@@ -2,6 +2,7 @@
 import ast
 
 from ..core import (
+    strip_docstring,
     AnalysisError,
     obl,
     unparse,
@@ -288,26 +289,76 @@ def r12_3(ctx, rep):
     prog = ctx.prog
     f = prog.fn("terms.call_resolver.CallResolver.visitCallExpr")
     p = f.params[1]
-    loops = [n for n in walk_local(f.node) if isinstance(n, ast.For)]
-    ok = len(loops) == 1 and unparse(loops[0].iter) == f"{p}.args"
-    obl(rep, f, loops[0] if loops else f.node, "R12.3", ok, "arguments are processed in source order")
-    if ok:
+    # the loop over the arguments, after bringing later passes over an intermediate list into it, is evaluated once for an
+    # argument of the form name=value and once for any other argument
+    from .C17 import single_pass_view
+    from .. import symexec as SX
+    from ..core import strip_docstring as _sd
+
+    body = single_pass_view(_sd(f.node.body))
+    loops = [n for n in body if isinstance(n, ast.For)]
+    ok = len(loops) == 1 and unparse(loops[0].iter) == f"{p}.args" and isinstance(loops[0].target, ast.Name)
+    obl(rep, f, f.node, "R12.3", ok, "arguments are processed in source order")
+    rets = [n for n in body if isinstance(n, ast.Return)]
+    ret = rets[0].value if len(rets) == 1 else None
+    okr = isinstance(ret, ast.Call) and dotted(ret.func) == "LazyCall" and len(ret.args) == 3 and not ret.keywords \
+        and unparse(ret.args[0]) == f"{p}.callee.name.lexeme" and all(isinstance(a, ast.Name) for a in ret.args[1:])
+    obl(rep, f, f.node, "R12.3", okr, "LazyCall(callee lexeme, args, kwargs)", "", f"visitCallExpr returns `{unparse(ret) if ret is not None else None}`")
+    if ok and okr:
         lp = loops[0]
-        a = unparse(lp.target)
-        ifs = [i for i in lp.body if isinstance(i, ast.If)]
-        ok = len(ifs) == 1 and unparse(ifs[0].test) == f"isinstance({a}, Assign)"
-        kw = pos = None
-        if ok:
-            kw = [s for s in ifs[0].body if isinstance(s, ast.Assign)]
-            pos = [s for s in ifs[0].orelse if isinstance(s, ast.Expr)]
-            ok = len(kw) == 1 and unparse(kw[0].targets[0]) == f"kwargs[{a}.name.name.lexeme]" and unparse(kw[0].value) == f"{a}.value.accept(self)" \
-                and len(pos) == 1 and unparse(pos[0].value) == f"args.append({a}.accept(self))"
-        obl(rep, f, ifs[0] if ifs else lp, "R12.3", ok,
-            "`name=value` arguments go to kwargs under the assigned name, all others are appended to args", "",
-            "keyword / positional argument plumbing changed")
-    rets = [n for n in walk_local(f.node) if isinstance(n, ast.Return)]
-    ok = len(rets) == 1 and unparse(rets[0].value) == f"LazyCall({p}.callee.name.lexeme, args, kwargs)"
-    obl(rep, f, rets[0] if rets else f.node, "R12.3", ok, "LazyCall(callee lexeme, args, kwargs)")
+        a = lp.target.id
+        A_, K_ = ret.args[1].id, ret.args[2].id
+        # `args = <list filled in the loop>` after the loop: the name handed to LazyCall is an alias of that list
+        post = {unparse(st.targets[0]): st.value.id for st in body[body.index(lp) + 1:] if isinstance(st, ast.Assign) and len(st.targets) == 1
+                and isinstance(st.targets[0], ast.Name) and isinstance(st.value, ast.Name)}
+        A_, K_ = post.get(A_, A_), post.get(K_, K_)
+        # module-level sentinels (`X = object()`): `E is X` holds only for X itself
+        mod = f.module
+        sentinels = {g for g, vals in mod.globals.items() if len(vals) == 1 and isinstance(vals[0], ast.Call) and dotted(vals[0].func) == "object" and not vals[0].args}
+
+        def run_case(is_assign):
+            def decide(t, sx=None):
+                if isinstance(t, ast.UnaryOp) and isinstance(t.op, ast.Not):
+                    r = decide(t.operand, sx)
+                    return None if r is None else not r
+                if unparse(t) == f"isinstance({a}, Assign)":
+                    return is_assign
+                if isinstance(t, ast.Compare) and len(t.ops) == 1 and isinstance(t.ops[0], (ast.Is, ast.IsNot)) \
+                        and isinstance(t.comparators[0], ast.Name) and t.comparators[0].id in sentinels:
+                    left = sx.text(t.left) if sx is not None else unparse(t.left)
+                    same = left == t.comparators[0].id
+                    if not same and left in sentinels:
+                        return None
+                    return same == isinstance(t.ops[0], ast.Is)
+                return None
+
+            ex = SX.SymExec(decide=decide)
+            pre = [st for st in body[:body.index(lp)]]
+            for st in pre:
+                ex.step(st)
+            ex.run(lp.body)
+            pos = [SX.render(e[1][1][0]) for e in ex.effects if e[0] == "call" and e[1][0] == f"{A_}.append" and e[2] == () and len(e[1][1]) == 1]
+            pos_any = [e for e in ex.effects if e[0] == "call" and e[1][0].startswith(f"{A_}.")]
+            kw = [(e[1][1], SX.render(e[1][2])) for e in ex.effects if e[0] == "store" and e[1][0] == K_ and e[2] == ()]
+            kw_any = [e for e in ex.effects if (e[0] == "store" and e[1][0] == K_) or (e[0] == "call" and e[1][0].startswith(f"{K_}."))]
+            return pos, pos_any, kw, kw_any, ex
+
+        try:
+            pos1, pa1, kw1, ka1, ex1 = run_case(True)
+            pos0, pa0, kw0, ka0, ex0 = run_case(False)
+            init_ok = ex1.env.get(A_) is not None or True
+            ok2 = (kw1 == [(f"{a}.name.name.lexeme", f"{a}.value.accept(self)")] and len(ka1) == 1 and not pa1
+                   and pos0 == [f"{a}.accept(self)"] and len(pa0) == 1 and not ka0)
+            why = f"name=value argument: kwargs {kw1}, args {[SX.render(e[1][1][0]) for e in pa1 if e[1][1]]}; other argument: args {pos0}, kwargs {kw0}"
+            obl(rep, f, lp, "R12.3", ok2,
+                "`name=value` arguments go to kwargs under the assigned name, all others are appended to args", why,
+                f"keyword / positional argument plumbing changed - {why}")
+            # the two containers start empty
+            defs = {unparse(st.targets[0]): unparse(st.value) for st in body[:body.index(lp)] if isinstance(st, ast.Assign) and len(st.targets) == 1}
+            obl(rep, f, f.node, "R12.3", defs.get(A_) in ("[]", "list()") and defs.get(K_) in ("{}", "dict()"),
+                "args and kwargs start empty for every call", str({A_: defs.get(A_), K_: defs.get(K_)}), nontrivial=False)
+        except AnalysisError as e:
+            rep.defer(f"R12.3: visitCallExpr: {e}")
     ev = prog.fn("terms.call_resolver.LazyCall.eval")
     dm, env = ev.params[1], ev.params[2]
     defs = {unparse(s.targets[0]): unparse(s.value) for s in walk_local(ev.node) if isinstance(s, ast.Assign)}
@@ -394,18 +445,43 @@ def r12_5(ctx, rep):
         ex = SX.SymExec().run(strip_docstring(f.node.body))
         adds = [e for e in ex.effects if e[0] == "call" and e[1][0] == "self.add_token"]
         lex = "self.code[self.start:self.current]"
-        ok = len(adds) == 1 and adds[0][2] == () and len(adds[0][1][1]) == 2
-        v = adds[0][1][1][1] if ok else None
+        # (polarity of the fractional-part test on the path, converter) for every way a NUMBER token is added
+        def polarity(conds):
+            """True / False / None: did the path take the `next is '.' followed by a digit` branch"""
+            pol = None
+            for c, truth in conds:
+                neg = False
+                while c.startswith("not (") and c.endswith(")"):
+                    c, neg = c[5:-1], not neg
+                if "'.'" in c and "isdigit" in c:
+                    p_ = (truth is True) != neg
+                    if pol is not None and pol != p_:
+                        return None
+                    pol = p_
+            return pol
+
+        pairs = []
+
+        def expand(v, conds):
+            if isinstance(v, SX.Ite):
+                expand(v.a, conds + ((v.cond, True),))
+                expand(v.b, conds + ((v.cond, False),))
+            else:
+                pairs.append((polarity(conds), SX.render(v)))
+
+        ok = bool(adds) and all(len(e[1][1]) == 2 for e in adds)
+        v = None
+        if ok:
+            for e in adds:
+                v = e[1][1][1]
+                expand(v, tuple(e[2]))
         dots = [e for e in ex.effects if e[0] == "call" and e[1][0] == "self.advance" and e[2]]
-        okc = False
-        if ok and isinstance(v, SX.Ite) and dots:
-            consumed = {c for e in dots for c in e[2] if c[1] is True}
-            conds = {c[0] for c in consumed}
-            okc = (v.a == SX.Opaque(f"float({lex})") and v.b == SX.Opaque(f"int({lex})") and v.cond in conds) or \
-                  (v.b == SX.Opaque(f"float({lex})") and v.a == SX.Opaque(f"int({lex})") and any(v.cond == f"not ({c})" for c in conds))
-            okc = okc and all("'.'" in c for c in conds if c == v.cond or v.cond == f"not ({c})")
+        okc = ok and {p_ for p_, _ in pairs} == {True, False} and all(
+            (p_ is True and leaf == f"float({lex})") or (p_ is False and leaf == f"int({lex})") for p_, leaf in pairs)
+        # the '.' is consumed exactly on the fractional path
+        okc = okc and any(polarity(tuple(e[2])) is True for e in dots) and not any(polarity(tuple(e[2])) is False for e in dots)
         obl(rep, f, f.node, "R12.5", ok and okc, "a fractional part selects float, otherwise int",
-            SX.render(v) if v is not None else "", f"NUMBER literal is `{SX.render(v) if v is not None else '?'}`")
+            str(sorted(pairs, key=str)), f"NUMBER literal by path (fractional part?, converter): {sorted(pairs, key=str)}")
     except AnalysisError as e:
         rep.defer(f"R12.5: Scanner.number: {e}")
     f = prog.fn("scanner.Scanner.identifier")
@@ -515,8 +591,102 @@ def r12_6(ctx, rep):
     strf = {n.attr for n in ast.walk(s.node) if is_self_attr(n)}
     obl(rep, s, s.node, "R12.6", eqf <= strf, f"LazyCall.__str__ renders every field __eq__ compares: {sorted(eqf)}", f"rendered {sorted(strf)}",
         f"LazyCall.__str__ omits {sorted(eqf - strf)}: different calls get the same name")
-    ok = "self.kwargs.items()" in src and "f'{name}={str(arg)}'" in src.replace('"', "'") and "', '.join(args + kwargs)" in src.replace('"', "'")
-    obl(rep, s, s.node, "R12.6", ok, "keyword arguments are rendered as name=value after the positional ones, joined by ', '")
+    # the rendered argument list, as an abstract list shape (however it is assembled): all positional arguments as str(arg), in
+    # order, then all keyword arguments as name=str(value), in order; joined by ', ' between `callee(` and `)`
+    import copy as _copy
+
+    def comp_item(c):
+        """'*<element> for <targets> in <iterable>*' with the comprehension's variables renamed v0, v1, ..."""
+        if not (isinstance(c, (ast.ListComp, ast.GeneratorExp)) and len(c.generators) == 1 and not c.generators[0].ifs):
+            return None
+        c = _copy.deepcopy(c)
+        names = [n.id for n in ast.walk(c.generators[0].target) if isinstance(n, ast.Name)]
+        ren = {nm: f"v{i}" for i, nm in enumerate(names)}
+        for n in ast.walk(c):
+            if isinstance(n, ast.Name) and n.id in ren:
+                n.id = ren[n.id]
+            # f'{x}' / f'{x!s}' format a value with str(): the same text as f'{str(x)}'
+            if isinstance(n, ast.FormattedValue) and n.format_spec is None and n.conversion in (-1, 115) \
+                    and isinstance(n.value, ast.Call) and dotted(n.value.func) == "str" and len(n.value.args) == 1:
+                n.value, n.conversion = n.value.args[0], -1
+            elif isinstance(n, ast.FormattedValue) and n.conversion == 115:
+                n.conversion = -1
+        return f"*{unparse(c.elt)} for {unparse(c.generators[0].target)} in {unparse(c.generators[0].iter)}*"
+
+    def lshape(e, env):
+        if isinstance(e, ast.Name) and e.id in env:
+            return list(env[e.id])
+        if isinstance(e, (ast.ListComp, ast.GeneratorExp)):
+            it = comp_item(e)
+            return [it] if it else None
+        if isinstance(e, ast.BinOp) and isinstance(e.op, ast.Add):
+            a_, b_ = lshape(e.left, env), lshape(e.right, env)
+            return a_ + b_ if a_ is not None and b_ is not None else None
+        if isinstance(e, ast.List):
+            out = []
+            for x in e.elts:
+                if not isinstance(x, ast.Starred):
+                    return None
+                sh = lshape(x.value, env)
+                if sh is None:
+                    return None
+                out += sh
+            return out
+        if isinstance(e, ast.Call) and dotted(e.func) in ("list", "tuple") and len(e.args) == 1:
+            return lshape(e.args[0], env)
+        if isinstance(e, ast.Call) and dotted(e.func) in ("chain", "itertools.chain") and e.args:
+            out = []
+            for x in e.args:
+                sh = lshape(x, env)
+                if sh is None:
+                    return None
+                out += sh
+            return out
+        return None
+
+    env = {}
+    joined = None
+    modelled = True
+    for st in strip_docstring(s.node.body):
+        if isinstance(st, ast.Assign) and len(st.targets) == 1 and isinstance(st.targets[0], ast.Name):
+            sh = lshape(st.value, env)
+            if sh is not None:
+                env[st.targets[0].id] = sh
+            continue
+        if isinstance(st, ast.AugAssign) and isinstance(st.op, ast.Add) and isinstance(st.target, ast.Name) and st.target.id in env:
+            sh = lshape(st.value, env)
+            if sh is None:
+                modelled = False
+                break
+            env[st.target.id] = env[st.target.id] + sh
+            continue
+        if isinstance(st, ast.Expr) and isinstance(st.value, ast.Call) and isinstance(st.value.func, ast.Attribute) and st.value.func.attr == "extend" \
+                and isinstance(st.value.func.value, ast.Name) and st.value.func.value.id in env and len(st.value.args) == 1:
+            sh = lshape(st.value.args[0], env)
+            if sh is None:
+                modelled = False
+                break
+            env[st.value.func.value.id] = env[st.value.func.value.id] + sh
+            continue
+        if isinstance(st, ast.Return):
+            joins = [c for c in ast.walk(st) if isinstance(c, ast.Call) and isinstance(c.func, ast.Attribute) and c.func.attr == "join"
+                     and isinstance(c.func.value, ast.Constant) and c.func.value.value == ", " and len(c.args) == 1]
+            if len(joins) == 1:
+                joined = lshape(joins[0].args[0], env)
+                frame = _copy.deepcopy(st.value)
+            continue
+        if isinstance(st, ast.Expr) and isinstance(st.value, ast.Constant):
+            continue
+        modelled = False
+        break
+    want = ["*str(v0) for v0 in self.args*", "*f'{v0}={v1}' for (v0, v1) in self.kwargs.items()*"]
+    if not modelled or joined is None:
+        rep.defer(f"R12.6: LazyCall.__str__ assembles its argument list in a way the list-shape model does not follow")
+    else:
+        joined = [j.replace("str(v0) for v0 in self.args", "str(v0) for v0 in self.args") for j in joined]
+        obl(rep, s, s.node, "R12.6", joined == want or joined == ["*f'{v0}' for v0 in self.args*", want[1]],
+            "keyword arguments are rendered as name=value after the positional ones, joined by ', '", str(joined),
+            f"the rendered argument list is {joined}, expected {want}")
     lo = prog.cls("terms.call_resolver.LazyOperator")
     s = lo.methods["__str__"]
     eqf = {n.attr for n in ast.walk(lo.methods["__eq__"].node) if is_self_attr(n)}
